@@ -76,7 +76,7 @@ StringDictionaryPFC::StringDictionaryPFC(IteratorDictString *it,
 
     // Checking the available space in textStrings and
     // realloc if required
-    while ((bytesStrings + (2 * lenCurrent)) > reservedStrings)
+    while ((bytesStrings + 2 * (size_t)lenCurrent + 6) > reservedStrings)
       reservedStrings = Reallocate(&textStrings, reservedStrings);
 
     if ((elements % bucketsize) == 0) {
